@@ -247,7 +247,7 @@ class C03(Prop):
                   'exactly selection x repeat, every test in one process and inside one contiguous group per layer.')
     level_note = ('The reference selection (ztv/model.py) is shared with C08/C09; "executed" means TestCase.run was '
                   'called (covers tests skipped by decorator).')
-    rule = ('Hypothesis worlds (1..4 layers, 1..3 modules, nesting depth 3, levels -1..4, instance-level declarations) x '
+    rule = ('Hypothesis worlds (1..4 layers, 1..3 modules, nesting depth 3, levels -1..4, instance-level declarations, modules in packages, --package-path, -s) x '
             'options; 3 runs per case (list, sequential, one of -j2/-j3/-j1+resume/resume). Non-trivial = the selection is '
             'a proper non-empty subset spanning >=2 layers AND the third run really used child processes.')
     assumptions = ('module import at discovery time is not "running test code"',)
